@@ -295,6 +295,11 @@ func runBodyModifier(content []byte, h string, opt bodyOpts) obs {
 		// the origin served the (forwarded) Range itself
 		res.Status, res.StatusCode = "206 Partial Content", 206
 		res.Header.Set("Content-Range", "bytes 0-0/12345")
+	case (opt.Upstream == "304" || opt.Upstream == "204") && h == "":
+		// the origin answered a conditional request / had nothing to send
+		res.StatusCode = map[string]int{"304": 304, "204": 204}[opt.Upstream]
+		res.Status = fmt.Sprintf("%d %s", res.StatusCode, http.StatusText(res.StatusCode))
+		res.Body, res.ContentLength = http.NoBody, 0
 	case opt.Upstream == "416cr" && strict:
 		res.Status, res.StatusCode = "416 Requested Range Not Satisfiable", 416
 		res.Header.Set("Content-Range", "bytes */12345")
@@ -329,7 +334,11 @@ func outOfDescriptors(err error) bool {
 
 // runStaticModifier answers a request for /case.bin (holding content) with
 // static.Modifier the way the proxy does when the round trip is skipped.
-func runStaticModifier(ft *fileTree, content []byte, h string, viaJSON bool) (obs, error) {
+func runStaticModifier(ft *fileTree, content []byte, h string, viaJSON bool, upstream ...string) (obs, error) {
+	up := ""
+	if len(upstream) > 0 {
+		up = upstream[0]
+	}
 	if staticRuns++; staticRuns%256 == 0 {
 		runtime.GC()
 	}
@@ -339,6 +348,20 @@ func runStaticModifier(ft *fileTree, content []byte, h string, viaJSON bool) (ob
 		if err == nil {
 			req := newRequest("http://example.com/case.bin", h)
 			res := proxyutil.NewResponse(200, nil, req)
+			switch {
+			case up == "origin" || up == "nop":
+				// response scope only: the round trip was made, the origin's answer is replaced
+				res.Header.Set("Content-Type", "application/x-upstream")
+				res.ContentLength = int64(3 * len(upstreamMarker))
+				res.Body = newUpstreamBody()
+				if up == "nop" {
+					res.Body = nopBody{bytes.NewReader(bytes.Repeat(upstreamMarker, 3))}
+				}
+			case (up == "304" || up == "204") && h == "":
+				res.StatusCode = map[string]int{"304": 304, "204": 204}[up]
+				res.Status = fmt.Sprintf("%d %s", res.StatusCode, http.StatusText(res.StatusCode))
+				res.Body, res.ContentLength = http.NoBody, 0
+			}
 			mod, merr := newStaticModifier(ft.root, nil, viaJSON)
 			if merr != nil {
 				return configRejected("static", merr), nil
@@ -458,7 +481,7 @@ func runRange(c RangeCase) kit.Verdict {
 		if staticAllocatesFromHeader(ft) && allocBand(c.Range, c.Len) {
 			return judge(whoLabel("body", c.ViaJSON), content, c.Range, runBodyModifier(content, c.Range, bodyOpts{ViaJSON: c.ViaJSON}))
 		}
-		o, err := runStaticModifier(ft, content, c.Range, c.ViaJSON)
+		o, err := runStaticModifier(ft, content, c.Range, c.ViaJSON, c.Upstream)
 		if err != nil {
 			return kit.Failf("C20/harness/cannot-write-case-file", "%v", err)
 		}
@@ -477,7 +500,7 @@ func classesRange(c RangeCase) []string {
 	if c.ViaJSON {
 		cl = append(cl, "built-from-json-config")
 	}
-	if c.Who == "body" && c.Upstream != "" {
+	if c.Upstream != "" {
 		cl = append(cl, "upstream-"+c.Upstream)
 	}
 	if c.Who == "body" && c.Boundary != nil && !c.ViaJSON {
@@ -734,8 +757,16 @@ var propRange = &kit.Prop[RangeCase]{
 		} else if rapid.IntRange(0, 2).Draw(t, "via_json") == 2 {
 			c.ViaJSON = true
 		}
+		if c.Who == "static" {
+			c.Upstream = rapid.SampledFrom([]string{"", "", "", "", "origin", "nop", "origin", "", "", ""}).Draw(t, "upstream")
+		}
+		if c.Range == "" && rapid.Bool().Draw(t, "bodyless_origin") {
+			c.Upstream = rapid.SampledFrom([]string{"304", "204"}).Draw(t, "bodyless")
+		}
 		if c.Who == "body" {
-			c.Upstream = rapid.SampledFrom([]string{"", "", "", "", "nop", "206cr", "416cr", "nop", "", ""}).Draw(t, "upstream")
+			if c.Upstream == "" {
+				c.Upstream = rapid.SampledFrom([]string{"", "", "", "", "nop", "206cr", "416cr", "nop", "", ""}).Draw(t, "upstream")
+			}
 			if !c.ViaJSON && rapid.IntRange(0, 7).Draw(t, "set_boundary") == 4 {
 				b := rapid.SampledFrom(boundaryChoices).Draw(t, "boundary")
 				c.Boundary = &b
@@ -778,6 +809,7 @@ var syntaxVariants = []string{
 	"bytes=1-0", "bytes=0-0,1-0", "bytes=1-0,0-0", "bytes=-0", "bytes=-1,-0", "bytes=0-,0-,0-", "bytes=0-0,0-0", "bytes=1-1,0-0", "bytes=0-1,1-2,2-3,0-",
 	"bytes=0-1000000000000000000000000000000", "bytes=1000000000000000000000000000000-", "bytes=-1000000000000000000000000000000",
 	"bytes= 0-0", "bytes=0-0 ,1-1", "bytes=１-２",
+	"bytes=0-99999999999999999999x", "bytes=99999999999999999999x-", "bytes=-99999999999999999999x", "bytes=0-1,2-99999999999999999999 9", "bytes=--5,0-", "bytes=0-1,--0",
 }
 
 func TestRangeMatrix(t *testing.T) {
@@ -863,6 +895,26 @@ func enumRangeMatrix(yield func(RangeCase) bool) {
 					headers = append(headers, string(u)+"="+set)
 				}
 			}
+			// static.Modifier in response scope (the origin's answer is replaced), and
+			// both modifiers over an origin answer that cannot carry a body
+			for _, h := range []string{"", "bytes=2-5", "bytes=0-1,4-", "bytes=20-", "bytes=5-2", "bytes=abc", "bytes=-0", "bytes=0-1,20-", "items=0-1"} {
+				for _, up := range []string{"origin", "nop"} {
+					for _, vj := range []bool{false, true} {
+						if !yield(RangeCase{Who: "static", Len: n, Seed: 10, Range: h, Upstream: up, ViaJSON: vj}) {
+							return
+						}
+					}
+				}
+			}
+			for _, who := range []string{"body", "static"} {
+				for _, up := range []string{"304", "204"} {
+					for _, vj := range []bool{false, true} {
+						if !yield(RangeCase{Who: who, Len: n, Seed: 10, Upstream: up, ViaJSON: vj}) {
+							return
+						}
+					}
+				}
+			}
 			// what the modifier is handed and how its boundary was set (body.Modifier)
 			for _, h := range []string{"", "bytes=2-5", "bytes=0-1,4-", "bytes=0-1,-2,5-7", "bytes=20-", "bytes=5-2", "bytes=abc", "bytes=0-99999999999999999999", "items=0-1"} {
 				for _, up := range []string{"", "nop", "206cr", "416cr"} {
@@ -907,6 +959,19 @@ type PathCase struct {
 	// Root: how the root is spelled to the modifier (see rootSpellings). "{TOP}" in
 	// Target stands for the absolute path of the scratch tree (it changes per run).
 	Root string `json:"root,omitempty"`
+	// Direct: Target is put into req.URL.Path as it is (a request built by a
+	// program, or a path written by a URL-rewriting modifier) instead of being
+	// parsed from a request line; it need not start with a slash then.
+	Direct bool `json:"direct,omitempty"`
+	// MapDotted: the explicit mapping in force is dottedMap, whose VALUES carry
+	// dot segments (the documentation says values are "still rooted at rootPath").
+	MapDotted bool `json:"map_dotted,omitempty"`
+}
+
+// dottedMap: explicit path mappings whose values try to leave the root.
+var dottedMap = map[string]string{
+	"/m1": "../sentinel.txt", "/m2": "../../sentinel.txt", "/m3": "sub/../../sentinel.txt", "/m4": "/../secret/sentinel.txt",
+	"/m5": "../root-evil/file.txt", "/m6": "sub/../a.txt", "/m7": "./sub/./b.txt",
 }
 
 // rootSpellings: key -> (argument for NewModifier / rootPath, directory that
@@ -975,14 +1040,13 @@ func parseTarget(target string) (*http.Request, error) {
 // explicit mapping when the cleaned path is one of its keys). It returns the
 // file's content, or nil when no regular file is designated, plus the shape of
 // the case for signatures.
-func designated(ft *fileTree, root, urlPath, rawTarget string, explicit bool) (content []byte, shape string) {
+func designated(ft *fileTree, root, urlPath, rawTarget string, explicit map[string]string) (content []byte, shape string) {
 	clean := path.Clean("/" + urlPath)
 	rel := clean
-	mapped := false
-	if explicit {
-		if to, ok := ft.explicit[clean]; ok {
-			rel, mapped = path.Clean("/"+to), true
-		}
+	mapped, dotted := false, false
+	if to, ok := explicit[clean]; ok {
+		rel, mapped = path.Clean("/"+to), true
+		dotted = hasDotSegment(to)
 	}
 	full := root + rel // rel is absolute and clean: lexically below the root
 	fi, err := os.Stat(full)
@@ -996,8 +1060,12 @@ func designated(ft *fileTree, root, urlPath, rawTarget string, explicit bool) (c
 		shape = "through-regular-file"
 	case err == nil && fi.IsDir():
 		shape = "directory"
+	case mapped && dotted:
+		shape = "explicit-mapping-with-dot-segments"
 	case mapped:
 		shape = "explicit-mapping"
+	case !strings.HasPrefix(urlPath, "/") && urlPath != "" && urlPath != "*":
+		shape = "relative-path"
 	case strings.Contains(lower, "%25"):
 		shape = "double-encoded"
 	case strings.Contains(lower, "%2f") || strings.Contains(lower, "%5c") || strings.Contains(lower, "%2e") || strings.Contains(rawTarget, "\\"):
@@ -1028,6 +1096,30 @@ func hasDotSegment(p string) bool {
 	return false
 }
 
+// pathRequest builds the request of a path case and names the mapping in force.
+func pathRequest(ft *fileTree, c PathCase, target string) (*http.Request, map[string]string, error) {
+	var explicit map[string]string
+	switch {
+	case c.MapDotted:
+		explicit = dottedMap
+	case c.Explicit:
+		explicit = ft.explicit
+	}
+	if c.Direct {
+		if strings.ContainsRune(target, 0) {
+			return nil, nil, fmt.Errorf("NUL")
+		}
+		req, err := http.NewRequest("GET", "http://example.com/", nil)
+		if err != nil {
+			return nil, nil, err
+		}
+		req.URL.Path = target
+		return req, explicit, nil
+	}
+	req, err := parseTarget(target)
+	return req, explicit, err
+}
+
 func runPath(c PathCase) kit.Verdict {
 	treeMu.Lock()
 	ft := tree
@@ -1040,11 +1132,11 @@ func runPath(c PathCase) kit.Verdict {
 		return nil
 	}
 	target := strings.ReplaceAll(c.Target, "{TOP}", ft.top)
-	req, err := parseTarget(target)
+	req, explicit, err := pathRequest(ft, c, target)
 	if err != nil {
 		return nil // not a request the proxy would hand to a modifier
 	}
-	want, shape := designated(ft, rootDir, req.URL.Path, c.Target, c.Explicit)
+	want, shape := designated(ft, rootDir, req.URL.Path, c.Target, explicit)
 	who := whoLabel("static", c.ViaJSON)
 	if c.Root != "" {
 		who += "-root-" + c.Root
@@ -1053,10 +1145,6 @@ func runPath(c PathCase) kit.Verdict {
 		return "C20/" + who + "/path-" + shape + "/" + class
 	}
 	res := proxyutil.NewResponse(200, nil, req)
-	var explicit map[string]string
-	if c.Explicit {
-		explicit = ft.explicit
-	}
 	mod, err := newStaticModifier(rootArg, explicit, c.ViaJSON)
 	if err != nil {
 		return kit.Failf(sig("json-config-rejected"), "parse.FromJSON rejects the static.Modifier configuration: %v", err)
@@ -1138,11 +1226,11 @@ func classesPath(c PathCase) []string {
 		return []string{"unparseable-target"}
 	}
 	_, rootDir, ok := spellRoot(ft, c.Root)
-	req, err := parseTarget(strings.ReplaceAll(c.Target, "{TOP}", ft.top))
+	req, explicit, err := pathRequest(ft, c, strings.ReplaceAll(c.Target, "{TOP}", ft.top))
 	if err != nil || !ok {
 		return []string{"unparseable-target"}
 	}
-	want, shape := designated(ft, rootDir, req.URL.Path, c.Target, c.Explicit)
+	want, shape := designated(ft, rootDir, req.URL.Path, c.Target, explicit)
 	cl := []string{"shape-" + shape}
 	switch {
 	case strings.HasPrefix(c.Root, "cwd-"):
@@ -1152,6 +1240,12 @@ func classesPath(c PathCase) []string {
 	}
 	if strings.Contains(c.Target, "{TOP}") {
 		cl = append(cl, "asks-by-absolute-name")
+	}
+	if c.Direct {
+		cl = append(cl, "path-set-directly")
+	}
+	if c.MapDotted {
+		cl = append(cl, "mapping-values-with-dot-segments")
 	}
 	if want != nil {
 		cl = append(cl, "designates-a-file")
@@ -1269,14 +1363,32 @@ func genTarget(t *rapid.T) string {
 	return p
 }
 
-var pathRule = "request lines parsed by http.ReadRequest as the proxy does: paths built from dot segments, doubled slashes, %2e/%2f/%5c, the same encoded twice and three times (%252e%252e, %252f, %25252e, mixed with single encodings, climbing 1..5 levels towards sentinel files placed 1, 2 and 3 levels above the root), backslashes, NUL, long names and names of files outside the root, devious spellings of existing files, origin- and absolute-form, with and without the explicit path mapping, the root handed to the modifier as a clean absolute path or spelled with a trailing slash / dot segments / doubled slash / relative to the working directory, or as the empty string, '.', './', '../<dir>' (the working directory is the root: its files, the sentinels and system files are asked for by absolute name), through the constructor and through the JSON configuration (rootPath absent when empty); answered by static.Modifier over a root with sentinel files outside it; judged against path.Clean('/'+path) below the root; non-trivial = the target contains '..' or an encoded dot/separator"
+var pathRule = "request lines parsed by http.ReadRequest as the proxy does: paths built from dot segments, doubled slashes, %2e/%2f/%5c, the same encoded twice and three times (%252e%252e, %252f, %25252e, mixed with single encodings, climbing 1..5 levels towards sentinel files placed 1, 2 and 3 levels above the root), backslashes, NUL, long names and names of files outside the root, devious spellings of existing files, origin- and absolute-form, with and without the explicit path mapping, the root handed to the modifier as a clean absolute path or spelled with a trailing slash / dot segments / doubled slash / relative to the working directory, or as the empty string, '.', './', '../<dir>' (the working directory is the root: its files, the sentinels and system files are asked for by absolute name), through the constructor and through the JSON configuration (rootPath absent when empty); paths put into URL.Path directly (no leading slash: '../sentinel.txt', 'sub/../../sentinel.txt') and explicit mappings whose values carry dot segments; answered by static.Modifier over a root with sentinel files outside it; judged against path.Clean('/'+path) below the root; non-trivial = the target contains '..' or an encoded dot/separator"
 
 var propPath = &kit.Prop[PathCase]{
 	ID: "C20", Name: "static-path", Rule: "rapid: " + pathRule,
 	Run: runPath, NonTrivial: nonTrivialPath, Classes: classesPath,
-	Gates: map[string]float64{"nontrivial": 0.4, "designates-a-file": 0.12, "aims-outside": 0.1, "climbs-out-if-decoded-again": 0.05, "root-is-working-directory": 0.05, "root-spelled-unclean": 0.1, "absolute-form": 0.1, "explicit-map": 0.2},
+	Gates: map[string]float64{"nontrivial": 0.4, "designates-a-file": 0.12, "aims-outside": 0.1, "climbs-out-if-decoded-again": 0.05, "root-is-working-directory": 0.04, "root-spelled-unclean": 0.08, "path-set-directly": 0.08, "mapping-values-with-dot-segments": 0.04, "absolute-form": 0.1, "explicit-map": 0.2},
 	Gen: func(t *rapid.T) PathCase {
 		c := PathCase{Target: genTarget(t), Explicit: rapid.IntRange(0, 2).Draw(t, "explicit") == 0, ViaJSON: rapid.IntRange(0, 3).Draw(t, "via_json") == 2}
+		switch rapid.IntRange(0, 9).Draw(t, "special") {
+		case 4, 5: // a path set directly, mostly without the leading slash
+			c.Direct, c.Explicit = true, false
+			var segs []string
+			for i, n := 0, rapid.IntRange(1, 5).Draw(t, "direct_segs"); i < n; i++ {
+				segs = append(segs, rapid.SampledFrom([]string{"..", "..", "..", ".", "sub", "deep", "x", "", "root", "up1"}).Draw(t, "direct_seg"))
+			}
+			segs = append(segs, rapid.SampledFrom([]string{"sentinel.txt", "sentinel.txt", "secret/sentinel.txt", "root-evil/file.txt", "a.txt", "sub/b.txt", "m1"}).Draw(t, "direct_name"))
+			c.Target = strings.Join(segs, "/")
+			if rapid.IntRange(0, 3).Draw(t, "direct_slash") == 2 {
+				c.Target = "/" + c.Target
+			}
+			return c
+		case 6: // mapping values with dot segments
+			c.MapDotted, c.Explicit = true, false
+			c.Target = rapid.SampledFrom([]string{"/m1", "/m2", "/m3", "/m4", "/m5", "/m6", "/m7", "/x/../m1", "/m1/", "//m3", "/%6d1", "/m8", "http://example.com/m2"}).Draw(t, "mapped")
+			return c
+		}
 		if rapid.IntRange(0, 9).Draw(t, "root_spelled") >= 6 {
 			c.Root = rapid.SampledFrom(rootSpellings[1:]).Draw(t, "root")
 			if strings.HasPrefix(c.Root, "cwd-") && rapid.Bool().Draw(t, "cwd_target") {
@@ -1313,6 +1425,19 @@ func TestStaticPathMatrix(t *testing.T) {
 		for _, fixed := range []string{"http://example.com", "http://example.com?x", "*", "/", "//", "/%00", "/a.txt/", "/a.txt/x", "/alias", "/x/../alias", "/missing", "/sub/deep/d.txt", "/deep/alias.bin"} {
 			for _, ex := range []bool{false, true} {
 				if !yield(PathCase{Target: fixed, Explicit: ex}) {
+					return
+				}
+			}
+		}
+		// paths set directly (with and without the leading slash) and mapping values with dot segments
+		for _, vj := range []bool{false, true} {
+			for _, d := range []string{"../sentinel.txt", "sub/../../sentinel.txt", "../../sentinel.txt", "../secret/sentinel.txt", "../root-evil/file.txt", "..", ".", "a.txt", "sub/b.txt", "sub/../a.txt", "./a.txt", "../root/a.txt", "x/../../root/sub/b.txt", "/../sentinel.txt", "/a.txt", "nope"} {
+				if !yield(PathCase{Target: d, Direct: true, ViaJSON: vj}) {
+					return
+				}
+			}
+			for _, m := range []string{"/m1", "/m2", "/m3", "/m4", "/m5", "/m6", "/m7", "/x/../m1", "/m8", "/a.txt"} {
+				if !yield(PathCase{Target: m, MapDotted: true, ViaJSON: vj}) {
 					return
 				}
 			}
